@@ -651,7 +651,9 @@ func (t *State) RollBackUnconfirmedTx() (map[string]bool, []*pb.Transaction, err
 	}
 
 	// 原子写
+	t.xmodel.LockTables()
 	writeErr := batch.Write()
+	t.xmodel.UnlockTables()
 	if writeErr != nil {
 		t.ClearCache()
 		t.log.Warn("failed to clean unconfirmed tx", "writeErr", writeErr)
@@ -870,7 +872,9 @@ func (t *State) doTxSync(tx *pb.Transaction) error {
 	}
 	batch.Put(append([]byte(pb.UnconfirmedTablePrefix), tx.Txid...), pbTxBuf)
 	t.log.Debug("print tx size when DoTx", "tx_size", batch.ValueSize(), "txid", utils.F(tx.Txid))
+	t.xmodel.LockTables()
 	writeErr := batch.Write()
+	t.xmodel.UnlockTables()
 	utxo.VerifYield("dotx:after-write")
 	if writeErr != nil {
 		t.ClearCache()
@@ -1190,7 +1194,9 @@ func (t *State) updateLatestBlockid(newBlockid []byte, batch kvdb.Batch, reason 
 		return err
 	}
 	batch.Put(append([]byte(pb.MetaTablePrefix), []byte(utxo.LatestBlockKey)...), newBlockid)
+	t.xmodel.LockTables()
 	writeErr := batch.Write()
+	t.xmodel.UnlockTables()
 	if writeErr != nil {
 		t.ClearCache()
 		t.log.Warn(reason, "writeErr", writeErr)
